@@ -67,7 +67,7 @@ def make_ddx_run(inner, outer):
     return run
 
 
-def make_ddy_run(lower, upper):
+def make_ddy_run(lower, upper, own=False):
     """MeshRegion.DDY (used by the x-y derivative form of the curvature): centred differences
     at four locations, differences across y-joins, one-sided half-cell differences at targets."""
 
@@ -87,6 +87,9 @@ def make_ddy_run(lower, upper):
         fup = mk.sym_mla(ctx, "fup", mk.LOCS4, nx, ny, shared=False)
         r.connections = dict(lower=1 if lower else None, upper=2 if upper else None, inner=None, outer=None)
         r.meshParent = types.SimpleNamespace(regions={1: types.SimpleNamespace(fld=flo), 2: types.SimpleNamespace(fld=fup)})
+        if own:  # periodic in y: the region is its own lower and upper neighbour
+            flo = fup = f
+            r.meshParent = types.SimpleNamespace(regions={1: r, 2: r})
         with patched((M.warnings, "warn", lambda *a, **k: None)):
             res = M.MeshRegion.DDY(r, "#fld")
         with spec_mode():
@@ -216,6 +219,7 @@ def add_ddy(S):
     for lo in (False, True):
         for up in (False, True):
             S.contract("DDY[lower=%s,upper=%s]" % (lo, up), "hypnotoad.core.mesh:MeshRegion.DDY", make_ddy_run(lo, up), shape="nx=1, ny=2")
+    S.contract("DDY[the region is its own y-neighbour]", "hypnotoad.core.mesh:MeshRegion.DDY", make_ddy_run(True, True, own=True), shape="nx=1, ny=2, periodic in y")
 
 
 def build(S):
